@@ -50,16 +50,25 @@ Definition topic_bad (v : version) (t : list Z) : Prop :=
 
 Definition spec_qos_ok (q : Z) : bool := (0 <=? q) && (q <=? 2).
 
-(* publish() docstring: payload may be str, bytes, bytearray, int, float or None;
-   "ValueError: if the length of the payload is greater than 268435455 bytes" *)
+(* publish() docstring: payload may be str, bytes, bytearray, int, float or None *)
 Definition spec_payload_type_ok (k : pkind) : bool :=
   match k with
   | PStr | PBytes | PBytearray | PInt | PFloat | PNone => true
   | POther => false
   end.
 
-Definition spec_publish_ok (v : version) (topic : list Z) (qos : Z) (k : pkind) (plen : Z) : bool :=
-  spec_topic_ok v topic && spec_qos_ok qos && spec_payload_type_ok k && (plen <=? 268435455).
+(* MQTT 2.2.3 (v5: 2.1.4): the Remaining Length counts variable header plus payload and is at most
+   268,435,455. 3.3.2: the PUBLISH variable header is the Topic Name (a UTF-8 string: two length bytes
+   and the bytes), the Packet Identifier (two bytes, only for QoS 1 and 2) and, for v5.0, the
+   Properties (proplen bytes including their length prefix; a single zero byte when there are none).
+   The docstring's "ValueError: if the length of the payload is greater than 268435455 bytes" is the
+   special case of an otherwise empty packet: no larger payload can ever be sent. *)
+Definition spec_publish_remaining_length (v : version) (topic : list Z) (qos plen proplen : Z) : Z :=
+  (2 + Z.of_nat (length topic)) + (if 1 <=? qos then 2 else 0) + (if is_v5 v then proplen else 0) + plen.
+
+Definition spec_publish_ok (v : version) (topic : list Z) (qos : Z) (k : pkind) (plen proplen : Z) : bool :=
+  spec_topic_ok v topic && spec_qos_ok qos && spec_payload_type_ok k
+  && (spec_publish_remaining_length v topic qos plen proplen <=? 268435455).
 
 (* ------------------------------------------------------------------ subscribe(): the docstring
    Six calling conventions (client.py 1901-1978):
@@ -153,12 +162,26 @@ Definition documented_ok_literal (v : version) (a : sub_arg) : bool :=
   | _ => documented_ok v a
   end.
 
+(* MQTT 3.8: the SUBSCRIBE variable header is the Packet Identifier (2 bytes) and, for v5.0, the
+   Properties; the payload is, per subscription, the Topic Filter (UTF-8 string) and one options byte.
+   Like every packet it must fit the 268,435,455-byte Remaining Length; a request that does not can
+   only be refused. (Needs at least 4096 maximal filters.) *)
+Fixpoint spec_subscribe_payload_length (l : list (filter * opts)) : Z :=
+  match l with
+  | [] => 0
+  | p :: l' => (2 + Z.of_nat (length (fst p)) + 1) + spec_subscribe_payload_length l'
+  end.
+
+Definition spec_subscribe_remaining_length (v : version) (proplen : Z) (l : list (filter * opts)) : Z :=
+  2 + (if is_v5 v then proplen else 0) + spec_subscribe_payload_length l.
+
 (* ------------------------------------------------------------------ unsubscribe(): the docstring
    "topic: A single string, or list of strings ... raises ValueError: if topic is None or has zero
    string length, or is not a string or list." *)
 Definition unsub_documented_ok (a : unsub_arg) : bool :=
   match a with
   | UItem (IStr s) => negb (Nat.eqb (length s) 0)
-  | UList l => forallb (fun i => match i with IStr s => negb (Nat.eqb (length s) 0) | _ => false end) l
+  | UList l => negb (Nat.eqb (length l) 0)        (* MQTT-3.10.3-2: at least one topic filter *)
+               && forallb (fun i => match i with IStr s => negb (Nat.eqb (length s) 0) | _ => false end) l
   | _ => false
   end.
